@@ -55,3 +55,19 @@ Proof. vm_compute. repeat split; reflexivity. Qed.
 Print Assumptions C16_drain_filter_no_double_drop.
 Print Assumptions C16_drain_filter_nodup.
 Print Assumptions C16_truncate_panicking_drop.
+
+(* ---- dedup_by / dedup_by_key / dedup (VecDedup.v) ---- *)
+From BV Require Import VecDedup.
+From Coq Require Import Permutation.
+
+(* for every script of closure answers — a panic at any invocation included — the vector
+   afterwards holds `kept`, the destructors that ran are the drops, and together they are
+   exactly the old contents; if the closure panicked nothing was dropped and every element
+   is still in the vector exactly once *)
+Theorem C16_dedup_by_panic_safe : forall e v c ans,
+  repr e v c ->
+  exists kept, repr e (dedup_state v ans) kept /\
+    Permutation (kept ++ f_drops (snd (dedup_by v ans))) c /\
+    (fst (dedup_by v ans) = Panic PCallback -> f_drops (snd (dedup_by v ans)) = [] /\ Permutation kept c).
+Proof. exact dedup_by_safe. Qed.
+Print Assumptions C16_dedup_by_panic_safe.
